@@ -160,7 +160,7 @@ func runC21(c *Ctx) error {
 			return err
 		}
 		ids := map[string]string{}
-		d := &c19db{env: env, st: st, permst: st, mapIDs: ids, proofID: map[string]string{}, valueID: map[string]string{}, polID: map[string]string{}, ops: map[string]util.Hash{}}
+		d := &c19db{env: env, st: st, permst: st, writerOrder: true, mapIDs: ids, proofID: map[string]string{}, valueID: map[string]string{}, polID: map[string]string{}, ops: map[string]util.Hash{}}
 		if err := d.open(); err != nil {
 			return err
 		}
@@ -292,6 +292,50 @@ func runC21(c *Ctx) error {
 				c.Case(fmt.Sprintf("hist K:%s O:%s ; %s", strings.Join(keys, ","), strings.Join(opIDs, ","), hist), res)
 			}
 			_ = rst.Close()
+		}
+		// a second phase: the newest block is removed again (Center.RemoveBlocks): at every cut it is there with all
+		// its data, or gone
+		if i%3 != 2 {
+			rfrom := fs.mark()
+			removed, err := d.center.RemoveBlocks(base.Height(int64(next - 1)))
+			if err != nil {
+				return err
+			}
+			rto := fs.mark()
+			if removed {
+				c.Count("log-ops-in-phase", fmt.Sprintf("remove-%s:%d", map[bool]string{true: "big", false: "small"}[big], rto-rfrom))
+				for cut := rfrom; cut <= rto; cut++ {
+					img, err := fs.imageAt(cut, 0)
+					if err != nil {
+						return err
+					}
+					rst, err := leveldbstorage.NewStorage(img, nil)
+					if err != nil {
+						return err
+					}
+					r := &c19db{env: env, st: rst, permst: rst, mapIDs: ids, proofID: d.proofID, valueID: d.valueID, polID: d.polID, ops: d.ops}
+					if err := r.open(); err != nil {
+						c.Violation("C21:database-does-not-open-after-crash", fmt.Sprintf("history %s, crash after %d of %d storage writes of the removal of block %d: %v", full, cut-rfrom, rto-rfrom, next-1, err),
+							map[string]interface{}{"history": toks, "cut": cut - rfrom, "of": rto - rfrom})
+						_ = rst.Close()
+						continue
+					}
+					last := -1
+					if m, found, err := r.center.LastBlockMap(); err == nil && found {
+						last = int(m.Manifest().Height())
+					}
+					c.Eval(1)
+					c.Count("cut", "during-removal")
+					if last != next-1 && last != next-2 {
+						c.Violation("C21:committed-block-lost", fmt.Sprintf("history %s, crash during the removal of block %d: last height after recovery is %d", full, next-1, last),
+							map[string]interface{}{"history": toks, "cut": cut - rfrom, "of": rto - rfrom, "phase": "during-removal"})
+					} else {
+						hist := strings.Join(toks[:last+1], " ")
+						c.Case(fmt.Sprintf("hist K:%s O:%s ; %s", strings.Join(keys, ","), strings.Join(opIDs, ","), hist), r.reads(keys, last+1, c19lastSuf(toks[:last+1], last+1), opIDs))
+					}
+					_ = rst.Close()
+				}
+			}
 		}
 		c.Nontrivial(full)
 		_ = st.Close()
